@@ -7,8 +7,13 @@ G  every constructed pair (tangents >= 6 degrees apart) must be reported within 
    parameters, once; Line-Line / Line-Bezier / Bezier-Line pairs must report exactly the model's
    number of crossings; circle-lattice arc pairs; Path.intersect must report every crossing that
    lies strictly inside a segment of each path, once.
-Known findings (open): Bezier-Bezier crossings at dyadic parameters of both curves are lost, and
-generic Bezier-Bezier crossings can be reported several times.
+P+V Subdiv.tla: the subdivision loop of bezier_intersections as a state machine; the design variant
+   satisfies NoLoss / Once / Sound, the transcription of the code violates NoLoss (zero-extent and
+   touching boxes); harness/subdivmodel.py compares every behaviour of the transcription with the
+   recorded behaviour of the real loop, visit by visit.
+Known findings (open): Bezier-Bezier crossings at dyadic parameters of both curves are lost, crossings
+of an exactly axis-parallel straight Bezier are lost, and generic Bezier-Bezier crossings can be
+reported several times.
 """
 import random
 
@@ -59,6 +64,9 @@ def run(ck):
                        'two arcs are paired only when both are circular and unrotated']
     if not quick:
         ck.tlc('Crossings', 'Crossings_MC.cfg', timeout=1200)
+    # the subdivision loop itself: Subdiv.tla (design vs transcription of the code) and visit-by-visit conformance of the real loop
+    from .. import subdivmodel
+    subdivmodel.run(ck, quick)
     d = 'SPECIFICATION Spec\nCONSTANTS Q = %d\n Fams = {"%s"}\nINVARIANT MeetExactly\nINVARIANT Monotone\nINVARIANT TransversalOK\nINVARIANT Separated\nINVARIANT Dump\n'
     skipped = 0
     for q, n in ((3, 170 if quick else 1500), (2, 80 if quick else 500)):
